@@ -199,6 +199,35 @@ CHECKS = {
         "time. Two known findings (mutate noise redrawn on decode; options hash ignores value types).",
         "3/C18",
     ),
+    "C05": (
+        "exploration",
+        "expression-tree enumeration + RngSeam/lattice + plain-Python evaluator",
+        "bounded-exhaustive enumeration of well-typed expression trees (74 productions) x every outcome of their random leaves (exact RNG tree "
+        "for discrete leaves, 5-point lattices for continuous ones), node-local comparison with plain Python",
+        "13 353 (thorough 138 225) expression trees over scalar / vector / orientation / container / string leaves: every sampled node equals "
+        "the Python operation applied to the sampled values of its operands (forward, reverse and identity-shortcut forms for int- and "
+        "float-valued operands, attributes, indexing, lifted calls with keyword operands, containers, star-unpacking), through the API and, "
+        "for a simplest-first prefix, through compiled Scenic source; self-dependent defaults and delayed specifier arguments are evaluated "
+        "against the final properties; supportInterval of every node contains every value produced.",
+        "Trusted: the plain-Python model in gen/expr_c05.py. Python-raises cases only demand that Scenic raises too.",
+        "3/C05",
+    ),
+    "C20": (
+        "model_checking",
+        "network graph traversal + cache-protocol BFS",
+        "exhaustive traversal of every element and link of every shipped network with a probe lattice per element, and explicit-state BFS "
+        "over cache operation sequences against a reference model, every model trace replayed on the implementation",
+        "(A) 11 (thorough: 18 maps x 16 option sets + single-element deletion variants of the 6 smallest) networks: 170 relation kinds — "
+        "reciprocity of all links, geometric side of adjacent lanes, lookups at ~18k (557k) probes return containing elements with the documented "
+        "priority, children inside parents within tolerance, drivable area covered, roadDirection tangent to centrelines, cached == parsed. "
+        "(B) cache protocol: all operation sequences up to depth 3 (4) over a 17-letter alphabet (loads with 2 option sets, map edits, header / "
+        "version / digest damage, truncation, deletion): 39 (60) states, 291 (669) transitions, 5219 (88740) traces; every load returns the "
+        "network of the predicted (map, options) and uses / ignores the cache as the model says.",
+        "Trusted: models/cache_c20.py, the check's own STR-tree / shapely oracle. Town03/Town05 are empty files in this sandbox and skipped. "
+        "Damaged cache *payloads* and option sets for which a shipped map does not build are counted, not judged. One known finding "
+        "(children outside parents by up to 1.15 x tolerance on two maps).",
+        "3/C20",
+    ),
 }
 
 NOT_YET = {}
